@@ -1,4 +1,4 @@
-\* MODULE MCtouchput
+\* MODULE MCfault2
 SPECIFICATION Spec
 CONSTANTS
   Procs <- MCProcs
@@ -7,15 +7,15 @@ CONSTANTS
   Maint = "never"
   DirsExist = TRUE
   Pre <- MCPre
-  WriteFallback = TRUE
+  WriteFallback = FALSE
   CrashBudget = 0
   AdvBudget = 0
   Debris <- NoDebris
   PreRO <- NoPreRO
   FrontKind = "plain"
   KeyShards <- NoKeyShards
-  FaultBudget = 0
+  FaultBudget = 1
 VIEW View
-INVARIANTS InvDirValid InvDebris InvHandle InvNoErr
-PROPERTIES StepImmutable StepReadOnlyFirst StepRemoval
+INVARIANTS InvDirValid InvHandle InvNoLeak InvErrOnlyIfFaulted
+PROPERTIES StepImmutable StepReadOnlyFirst StepRemoval StepRegister StepGetLin
 CHECK_DEADLOCK FALSE
